@@ -147,7 +147,13 @@ SELS = [[("GUITAR", "EXPERT")], [("GUITAR", "HARD"), ("DRUMS", "EASY")], [], [("
 
 def judge(rec, text, origin, sel=None):
     case = {"text": text, "sel": sel}
-    out = harness.parse(text, harness.pairs(sel) if sel is not None else None)
+    if len(text) % 8 in (3, 6):
+        # the application has silenced the library's reports (logging.disable / logger level ERROR): still a chart or a documented error
+        with harness.quiet(len(text) % 8):
+            out = harness.parse(text, harness.pairs(sel) if sel is not None else None)
+        rec.cls("parsed_with_the_library's_reports_silenced")
+    else:
+        out = harness.parse(text, harness.pairs(sel) if sel is not None else None)
     if sel is not None:
         rec.cls("parsed_under_a_selection")
     rec.ev()
